@@ -126,7 +126,18 @@ class BaseSQLURLTable(BaseURLTable):
 
                 added_urls = get_inserted_urls()
 
-            hostnames = (URLInfo.parse(url).hostname for url in added_urls)
+            # Only the URLs given by the user (level 0) define the hostnames
+            # that --span-hosts treats as the crawl's own. Hostnames of URLs
+            # found while crawling must not widen that set on a later run.
+            root_urls = frozenset(
+                row_value['url'] for row_value in all_row_values
+                if not row_value.get('level')
+            )
+            hostnames = [
+                hostname for url, hostname in
+                [(url, URLInfo.parse(url).hostname) for url in added_urls]
+                if url in root_urls
+            ]
             session.execute(
                 insert(Hostname).prefix_with('OR IGNORE'),
                 [{'hostname': hostname} for hostname in hostnames]
